@@ -43,9 +43,17 @@ class Router:
         return frozenset(self.topics_by_queue.keys())
 
     def include_router(self, router: Router) -> None:
-        self.actors.update(router.actors)
-        for queue_name, topics in router.topics_by_queue.items():
-            self.topics_by_queue[queue_name].update(topics)
+        for actor in router.actors.values():
+            self._add_actor(actor)
+
+    def _add_actor(self, actor: ActorData) -> None:
+        # the name can be registered already, with another queue: it must not stay a topic there
+        for queue_name in [q for q, topics in self.topics_by_queue.items() if actor.name in topics]:
+            self.topics_by_queue[queue_name].discard(actor.name)
+            if not self.topics_by_queue[queue_name]:
+                del self.topics_by_queue[queue_name]
+        self.actors[actor.name] = actor
+        self.topics_by_queue[actor.queue].add(actor.name)
 
     @overload
     def actor(
@@ -136,6 +144,5 @@ class Router:
                 "followed by letters, digits, dashes or underscores.",
             )
 
-        self.actors[a.name] = a
-        self.topics_by_queue[a.queue].add(a.name)
+        self._add_actor(a)
         return fn
